@@ -273,10 +273,12 @@ def insertUnique (v : Value) : List Value → List Value
   | x :: xs =>
     match Value.cmp v x with
     | .lt => v :: x :: xs
-    | .eq => x :: xs
+    | .eq => v :: xs
     | .gt => x :: insertUnique v xs
 
-/-- `unique_values`: `BTreeSet::from_iter(values).into_iter()` — ascending, first of equal values kept -/
+/-- `unique_values`: `BTreeSet::from_iter(values).into_iter()` — ascending; of equal values (equal in the order but not
+identical: `-0.0` / `0.0`, NaN payloads) the LAST one is kept (std collects, sorts stably and de-duplicates the sorted
+sequence keeping the later of two equal neighbours) -/
 def uniqueValues (xs : List Value) : List Value := xs.foldl (fun acc v => insertUnique v acc) []
 
 def asciiUpper (bs : Bytes) : Bytes := bs.map (fun b => if 97 ≤ b && b ≤ 122 then b - 32 else b)
